@@ -22,12 +22,17 @@ def monotone_vectors(maxlen, minlen=1):
     return out
 
 
+THIN = 2. ** -17      # a layer 7.6e-6 thick (high-top grids: the last edges before the model top)
+
+
 def sigma_grids():
     inner = SIGMA[1:-1]
     out = []
     for r in range(0, len(inner) + 1):
         for c in itertools.combinations(inner, r):
             out.append([1.] + list(c) + [0.])
+    # grids with a very thin top layer, alone and next to ordinary levels
+    out += [[1., THIN, 0.], [1., .5, THIN, 0.], [1., .75, .25, 2 * THIN, THIN, 0.]]
     return out
 
 
@@ -333,7 +338,7 @@ class Prop(core.Prop):
             nd = np.asarray(g.variables['O3'][...], 'd')
             col_old = (data * dfr[None, :, None, None]).sum(1)
             col_new = (nd * dto[None, :, None, None]).sum(1)
-            if relerr(col_new, col_old) > 1e-6:      # data and result are float32
+            if not relerr(col_new, col_old) <= 1e-6:      # data and result are float32 (NaN counts as a miss)
                 vs.append(viol('column-mass', ('interpSigma', 'conserve'),
                                'from %s to %s: column integral %s -> %s' % (fr, to, col_old.ravel(), col_new.ravel()),
                                **scope))
@@ -341,7 +346,7 @@ class Prop(core.Prop):
             f2.variables['O3'][...] = 3.25
             g2 = f2.interpSigma(np.array(case['to'], 'f'), interptype='conserve')
             ntrans += 1
-            if relerr(np.asarray(g2.variables['O3'][...], 'd'), 3.25) > 1e-6:
+            if not relerr(np.asarray(g2.variables['O3'][...], 'd'), 3.25) <= 1e-6:
                 vs.append(viol('constant-field', ('interpSigma', 'conserve'),
                                'from %s to %s: constant 3.25 -> %s' % (fr, to, np.asarray(g2.variables['O3'][...]).ravel()),
                                **scope))
